@@ -281,6 +281,7 @@ theorem critical_of_parts {iNow : Nat} {pre step post tail : Stmt}
     simp [t1, t2, t3, hf4]
 
 macro "throttle_eval" : tactic => `(tactic|
-  (simp (config := { decide := true }) [exec, exec.execH, eval, builtin, ext, upd, Val.same, Val.truthy, excClass, cmpInt, ints, frame_iff, *]))
+  (simp (config := { decide := true }) [exec, exec.execH, eval, builtin, ext, upd, Val.same, Val.truthy, excClass, cmpInt, ints, frame_iff,
+     len1_ne_zero, len1_beq_zero, len1_eq_zero, len1_pos, len1_ge_one, len2_ge_one, len2_eq_one, len2_beq_one, len2_bne_one, len2_gt_one, *]))
 
 end Haiway.Bridge.Throttle
